@@ -80,7 +80,9 @@ class CollectionField(FieldType):
     @classmethod
     def read(cls, h5_group, memo):
         name = h5_group.attrs["fieldname"]
-        field = cls(num_obs=None, name=name, val=None)  # num_obs and val not used
+        num_obs = h5_group.file.attrs.get("num_obs")
+        write_level = h5_group.attrs.get("write_level")  # Not in files written by earlier versions
+        field = cls(num_obs=num_obs, name=name, val=None, write_level=write_level)
         fields = _h5utils.decode_h5attr(h5_group.attrs["fields"])
         for fieldname, fieldtype in fields.items():
             field.data._fields[fieldname] = fieldtypes.function(fieldtype).read(h5_group[fieldname], memo)
@@ -153,6 +155,7 @@ class CollectionField(FieldType):
         """Write data to a HDF5 data source"""
         # Write each field in the collection
         h5_group.attrs["fieldname"] = self.name
+        h5_group.attrs["write_level"] = self._write_level.name
         h5_group.attrs["__class__"] = f"{self.data.__class__.__module__}.{self.data.__class__.__name__}"
         for field_name, field in self.data._fields.items():
             if field.write_level >= write_level:
